@@ -11,7 +11,7 @@ RULE = ("trees with 1-3 groups (sizes 2-4), hard-link sets, symlinks reported wi
         "names, hostile file names (leading/trailing whitespace of several kinds, quotes, backslash, newline, CR, tab, "
         "non-UTF-8, '#', '~', '$'); x report format {text, JSON} x op {remove, link, link --soft, dedupe, move} x "
         "-n {unset, 2} x --priority {unset, bottom, newest} x {no pattern, --name, --keep-name}; `move` also into a target "
-        "directory that already holds files at the destination paths; real runs. Oracle: "
+        "directory that already holds files at the destination paths; two trees also with a member rewritten (same length) between `group` and the dedupe command, both run under TZ in {UTC, JST-9, PST8}; real runs. Oracle: "
         "inventory before/after (lstat + sha256, never through fclones): no content digest disappears from regular "
         "files (tree + move target); >= max(1,n) replicas per group completely untouched; nothing outside the reported "
         "groups changes; link/clone ops keep every path readable with the same bytes; move keeps the bytes under the "
@@ -142,6 +142,16 @@ def cases(tier, seed):
                         # (e.g. a second `move` into the same archive): they are outsiders with unique content
                         out.append({"tree": tname, "roots": roots, "gargs": gargs, "entries": entries, "fmt": fmt,
                                     "op": op, "n": n, "prio": prio, "pat": pat, "prepop": True})
+    # a member of a reported group is rewritten (same length, new bytes) between `group` and the dedupe command, both
+    # running in the same time zone - UTC, east and west of it: whatever the commands decide, no content may be lost
+    st = structural_trees()
+    for tname in ("one_group", "three_groups"):
+        roots, gargs, entries = st[tname]
+        for fmt in ("default", "json"):
+            for op in ("remove", "link", "softlink", "move"):
+                for tz in (None, "JST-9", "PST8"):
+                    out.append({"tree": "s:" + tname, "roots": roots, "gargs": gargs, "entries": entries, "fmt": fmt,
+                                "op": op, "n": None, "prio": None, "pat": None, "stale": True, "tz": tz})
     return out
 
 
@@ -167,11 +177,21 @@ def evaluate(case):
         entries = [dict(e, to=e["to"].replace("@TREE@", sc.tree)) if e["k"] == "sym" else e for e in case["entries"]]
         C.make_tree(sc.tree, entries)
         target = os.path.join(sc.root, "moved")
-        report = D.make_report(sc, ["--min", "0"] + case["gargs"], case["roots"], fmt=case["fmt"])
+        tzenv = {"TZ": case["tz"]} if case.get("tz") else None
+        report = D.make_report(sc, ["--min", "0"] + case["gargs"], case["roots"], fmt=case["fmt"], env_extra=tzenv)
         rep = D.report_groups(report)
         members = set()
         for g in rep.groups:
             members.update(C.u(p) for p in g["paths"])
+        if case.get("stale"):
+            import time
+            time.sleep(0.03)
+            victim = rep.groups[0]["paths"][-1]
+            old_bytes = C.read_file(victim)
+            with open(victim, "r+b") as f:
+                f.write(bytes((x + 1) % 256 for x in old_bytes))
+            time.sleep(0.03)
+            feat = dict(feat, stale_report=True, timezone=case.get("tz") or "UTC")
         dargs = []
         if case["n"]:
             dargs += ["-n", str(case["n"])]
@@ -199,7 +219,7 @@ def evaluate(case):
                     content_before[p] = C.sha(C.read_file(C.b(p)))
                 except OSError:
                     pass
-        env_extra = None
+        env_extra = dict(tzenv) if tzenv else None
         if case["op"] == "dedupe" and not case.get("native"):
             # no reflink file system here: let the shim emulate ioctl(FICLONE) so that the clone path really runs
             env_extra = {"LD_PRELOAD": os.path.join(C.BUILD, "fcshim.so"), "FCSHIM_ROOT": sc.tree,
